@@ -256,6 +256,55 @@ theorem C15_unknown (tbl : List Entry) (req : Str)
   have := (C15_alias tbl req hne hnw).1 h0
   exact ⟨this, by rw [this]; rfl⟩
 
+/-! ## Unknown ⇒ 200 and NOTHING runs (`Executor.Run`) -/
+
+/-- **an unknown name among the requests**: if every request before it resolves and it
+resolves to nothing, the invocation is refused with code 200 — `runCheck` yields no list of
+tasks to run, whatever comes after it and whatever the earlier requests were. -/
+theorem C15_unknown_nothing_runs (tbl : List Entry) (pre post : List Str) (r : Str)
+    (hpre : ∀ x ∈ pre, ∃ i ws, resolve tbl x = .found i ws) (hr : resolve tbl r = .notFound) :
+    runCheck tbl (pre ++ r :: post) = .refused 200 := by
+  induction pre with
+  | nil => simp [runCheck, hr, Resolution.code]
+  | cons x xs ih =>
+    obtain ⟨i, ws, hx⟩ := hpre x List.mem_cons_self
+    have := ih (fun y hy => hpre y (List.mem_cons_of_mem _ hy))
+    simp only [List.cons_append, runCheck, hx, this]
+
+/-- the same for an ambiguous alias: 203, nothing runs -/
+theorem C15_conflict_nothing_runs (tbl : List Entry) (pre post : List Str) (r : Str) (is : List Nat)
+    (hpre : ∀ x ∈ pre, ∃ i ws, resolve tbl x = .found i ws) (hr : resolve tbl r = .conflict is) :
+    runCheck tbl (pre ++ r :: post) = .refused 203 := by
+  induction pre with
+  | nil => simp [runCheck, hr, Resolution.code]
+  | cons x xs ih =>
+    obtain ⟨i, ws, hx⟩ := hpre x List.mem_cons_self
+    have := ih (fun y hy => hpre y (List.mem_cons_of_mem _ hy))
+    simp only [List.cons_append, runCheck, hx, this]
+
+/-- conversely, tasks run only when EVERY request resolved, and then exactly the resolved
+tasks, one per request, in request order -/
+theorem C15_run_only_resolved (tbl : List Entry) (reqs : List Str) (is : List Nat)
+    (h : runCheck tbl reqs = .ran is) :
+    is.length = reqs.length ∧ ∀ (k : Nat) (r : Str), reqs[k]? = some r → ∃ (i : Nat) (ws : List Str), is[k]? = some i ∧ resolve tbl r = .found i ws := by
+  induction reqs generalizing is with
+  | nil => simp only [runCheck] at h; cases h; simp
+  | cons x xs ih =>
+    simp only [runCheck] at h
+    split at h
+    · rename_i i ws hx
+      split at h
+      · rename_i is' hrest
+        cases h
+        obtain ⟨h1, h2⟩ := ih is' hrest
+        refine ⟨by simp [h1], ?_⟩
+        intro k r hk
+        cases k with
+        | zero => simp at hk; subst hk; exact ⟨i, ws, by simp, hx⟩
+        | succ k => simpa using h2 k r (by simpa using hk)
+      · cases h
+    · cases h
+
 /-! ## Non-vacuity: concrete tables meeting the hypotheses -/
 
 private def tbl : List Entry :=
@@ -270,6 +319,10 @@ example : resolve tbl ['s','t','x'] = .found 2 [['x']] := by decide
 example : resolve tbl ['b'] = .conflict [0, 2] := by decide
 example : resolve tbl ['a','X','b'] = .notFound := by decide   -- '.' is literal
 example : wildcardMatch ['s','*','-','*'] ['s','a','-','b','-','c'] = some [['a','-','b'],['c']] := by decide
+/-- `task build nosuch stx`: refused with 200, nothing runs (not even `build`); `task build stx` runs 0 then 2 -/
+example : runCheck tbl [['b','u','i','l','d'], ['n','o'], ['s','t','x']] = .refused 200 := by decide
+example : runCheck tbl [['b','u','i','l','d'], ['s','t','x']] = .ran [0, 2] := by decide
+example : runCheck tbl [['b','u','i','l','d'], ['b']] = .refused 203 := by decide
 
 /-! ## Tie to the source (regenerated every run) -/
 
@@ -292,5 +345,13 @@ theorem resolve_order_in_source :
       "fmt.Sprintf(\"^%s$\", strings.ReplaceAll(regexp.QuoteMeta(‹name›), `\\*`, \"(.*)\"))" ∧
     TaskModel.Gen.ResolveOrder.wildcardMatch = ["if:len==0", "return", "if:len!=wildcardCount", "return", "return"] := by
   decide
+
+/-- **Obligation.** In `Executor.Run`, the block that handles a request `GetTask` could not
+resolve calls `ListTasks` (the list of available tasks, a help for the user) and returns
+the error of `GetTask` — on every path; in particular it never returns the error of
+`ListTasks` in its place (before the fix it did: another task with a malformed dotenv file
+made `task nosuch` exit 1 without "does not exist"). -/
+theorem run_unknown_in_source :
+    TaskModel.Gen.ResolveOrder.runUnknown = ["call:ListTasks", "return:error-of-GetTask"] := by decide
 
 end Props.C15
